@@ -83,6 +83,43 @@ def constructions(key, data, rs):
     return out
 
 
+def light_pass(ck, n):
+    """One more data point with a single setting (alpha 2.5, outlier prior 0.2, unit cluster sizes), two constructions per forest:
+    covers shapes the full pass does not reach (e.g. two top-level clones beside a clone with two children)."""
+    from phyclone.tree import FSCRPDistribution, TreeJointDistribution
+    from phyclone.smc.swarm import TreeHolder
+    G, D = 3, 1
+    cfg = tlc.cfg_text(constants={"N": n, "OutliersOn": "TRUE", "Dump": "TRUE"}, invariants=["FeatConsistent", "Emit"])
+    r = tlc.run_tlc("c03_density_light", "Density", cfg, timeout=3000)
+    tlc.require_ok(r, "Density light")
+    ck.add_tlc("Density N=%d (light pass)" % n, r)
+    feats = {absstate.canon(x["st"]): x["feat"] for x in r.json_prints}
+    tab = gridoracle.int_tables(n, D, G, ck.seed + 50, lo=1, hi=6)
+    oracle, ro = gridoracle.run_oracle("c03_oracle_light", tab, check_def=False)
+    ck.add_tlc("GridOracle N=%d G=%d D=%d (light pass data terms)" % (n, G, D), ro)
+    single = {d: oracle[absstate.canon({"f": [[d]], "o": []})]["Z"] for d in range(n)}
+    outl_marg = {d: sum(math.log(sum(single[d][i])) - 2 * math.log(G) for i in range(D)) for d in range(n)}
+    data = gridoracle.data_from_tables(tab, outlier_prob=0.2)
+    dist = TreeJointDistribution(FSCRPDistribution(2.5))
+    sizes_of = {d: 1 for d in range(n)}
+    for key in sorted(feats, key=absstate.key_str):
+        if absstate.data_ids(key) != set(range(n)):
+            continue
+        exp_p = expected(feats[key], 2.5, 0.2, sizes_of, oracle[key]["Z"] if key[0] else None, outl_marg, G, D, "marg")
+        exp_1 = expected(feats[key], 2.5, 0.2, sizes_of, oracle[key]["Z"] if key[0] else None, outl_marg, G, D, "one")
+        for vname, tree in c02.build_variants(key, data)[:2]:
+            both = dist.compute_both_log_p_and_log_p_one(tree)
+            th = TreeHolder(tree, dist, None)
+            ck.evaluations += 3
+            for nm, g, e in (("log_p", float(dist.log_p(tree)), exp_p), ("log_p_one", float(dist.log_p_one(tree)), exp_1), ("fused log_p", float(both[0]), exp_p),
+                             ("fused log_p_one", float(both[1]), exp_1), ("particle log_p_one", float(th.log_p_one), exp_1)):
+                if not math.isfinite(g) or abs(g - e) > 1e-9 * (1 + abs(e)):
+                    ck.violation("C03|%s|light_pass" % nm.replace(" ", "_"), "%s = %.12g, FS-CRP model value %.12g for %s built %s (alpha 2.5, p_out 0.2)" % (
+                        nm, g, e, absstate.key_str(key), vname), {"state": absstate.to_json(key), "alpha": 2.5, "p_out": 0.2, "variant": vname, "tables": tab.tolist()})
+        ck.traces_validated += 1
+        ck.nontrivial("light|" + absstate.key_str(key))
+
+
 def run(corrupt=None):
     ck = Check("C03")
     env.use_repo()
@@ -92,6 +129,10 @@ def run(corrupt=None):
     thorough = ck.tier == "thorough"
     n = 4 if thorough else 3
     G, D = 4, 2
+    if thorough:
+        light_pass(ck, 5)
+    else:
+        light_pass(ck, 4)
     cfg = tlc.cfg_text(constants={"N": n, "OutliersOn": "TRUE", "Dump": "TRUE"}, invariants=["FeatConsistent", "Emit"])
     r = tlc.run_tlc("c03_density", "Density", cfg, timeout=1500)
     tlc.require_ok(r, "Density")
